@@ -552,4 +552,45 @@ theorem objectfreq_unopened_db_panics_witness :
      | .error (.panic _) => true
      | _ => false) = true := by decide
 
+/-! ## the background sampler -/
+
+theorem sampler_recursion_never_returns (cfg : Cfg) (db : Nat) (es : EState) :
+    ∀ e, samplerPass.samplerPass2 cfg db es ≠ .ok e := by
+  intro e h
+  unfold samplerPass.samplerPass2 at h
+  dsimp only at h
+  split at h
+  · contradiction
+  · split at h
+    · contradiction
+    · split at h <;> contradiction
+
+/-- **the background sampler never returns**: on a server that holds at least one database, one pass of
+    evictKeysWithExpiredTTL ends in a panic, an endless redraw, or the self-deadlock of its recursive call — for every
+    state, every database index, every eviction policy -/
+theorem sampler_never_returns (cfg : Cfg) (db : Nat) (es : EState) (hdb : es.s.dbs ≠ []) :
+    ∀ e, samplerPass cfg db es ≠ .ok e := by
+  intro e h
+  have hn : es.s.dbs.length ≠ 0 := by
+    cases hd : es.s.dbs with
+    | nil => exact absurd hd hdb
+    | cons a r => simp
+  unfold samplerPass at h
+  dsimp only at h
+  split at h
+  · contradiction
+  · split at h
+    · contradiction
+    · split at h
+      · contradiction
+      · next es' _ =>
+        have hz : ((if (es.s.db db).vol.length < evictionSample then List.length es.s.dbs else evictionSample) == 0) = false := by
+          by_cases hv : (es.s.db db).vol.length < evictionSample
+          · simp [hv, hn]
+          · rw [if_neg hv]; decide
+        rw [hz] at h
+        simp only [Bool.false_eq_true, if_false] at h
+        split at h
+        · contradiction
+        · next e' he' => exact sampler_recursion_never_returns cfg db es' e' he'
 end Sugar.Props.C08
